@@ -539,6 +539,13 @@ func famTyped(dir string, seed int64, tier string) {
 		if badKey && err == nil {
 			repM.violate("C08", "bad-key-accepted", "a map key that marshals to NaN was accepted", desc)
 		}
+		if err != nil && classOf(err) != "EPanic" && classOf(err) != "EDiverge" && !errorsIs(err, sb.MarshalError) {
+			repM.violate("C15", "not-a-marshal-error", fmt.Sprintf("Marshal failed with an error that is not a MarshalError: %v", err), desc)
+			repM.violate("C08", "not-a-marshal-error", fmt.Sprintf("Marshal failed with an error that is not a MarshalError: %v", err), desc)
+		}
+		if badKey && err != nil && classOf(err) != "EBadMapKey" {
+			repM.violate("C08", "bad-key-error-class", fmt.Sprintf("a NaN map key is reported as %s, not as BadMapKey", classOf(err)), desc)
+		}
 		if !tied {
 			wM.add(fmt.Sprintf("MarshalCase %s %s %s %s", coqOpts(skipEmpty, false, false), tyS, valS, mobs(ts, err)), desc, t.Kind() >= reflect.Array)
 		}
